@@ -446,6 +446,8 @@ class Specs:
             return vint(sym.didx(st.heap.dkeys(d.t), st.heap.dlen(d.t), k.t))
         if name == 'alive':
             x = ex.ev1(a[0], st, fr)
+            if x.kind == 'none':
+                return vbool(False)
             return vbool(st.heap.alive(x.t))
         if name == 'fresh':
             x = ex.ev1(a[0], st, fr)
